@@ -641,15 +641,39 @@ Proof.
   destruct (egress_loop egress_fuel (check_retx k) []) as [k1 out]. cbn [fst] in *. apply AccInv_reap_closed, H1.
 Qed.
 
-Lemma AccInv_k_udp_send_to k acc fd pl dst : AccInv k acc -> AccInv (fst (k_udp_send_to k fd pl dst)) acc.
+Lemma AccInv_udp_send_core k acc fd s pl dst : In fd (keys k) -> AccInv k acc -> AccInv (fst (udp_send_core k fd s pl dst)) acc.
 Proof.
-  intros H. unfold k_udp_send_to. destruct (lookup k fd) as [s|] eqn:L; [|exact H].
-  destruct (lookup_some_in _ _ _ L) as [_ Hfd].
-  destruct (negb _); [exact H|]. destruct (_ <? _); [exact H|].
+  intros Hfd H. unfold udp_send_core. destruct (_ <? _); [exact H|].
   assert (AccInv (fst (match s_bound s with Some b => (k, Ready b) | None => auto_bind k fd false (fst dst) end)) acc) as H1.
   { destruct (s_bound s); [exact H|apply AccInv_auto_bind; assumption]. }
   destruct (match s_bound s with Some b => _ | None => _ end) as [k1 r]; cbn [fst] in *.
   destruct r as [|b|e]; try exact H1. apply AccInv_emit, H1.
+Qed.
+
+Lemma AccInv_k_udp_send_to k acc fd pl dst : AccInv k acc -> AccInv (fst (k_udp_send_to k fd pl dst)) acc.
+Proof.
+  intros H. unfold k_udp_send_to. destruct (lookup k fd) as [s|] eqn:L; [|exact H].
+  destruct (lookup_some_in _ _ _ L) as [_ Hfd].
+  destruct (negb _); [exact H|]. apply AccInv_udp_send_core; assumption.
+Qed.
+
+Lemma AccInv_k_udp_send k acc fd pl : AccInv k acc -> AccInv (fst (k_udp_send k fd pl)) acc.
+Proof.
+  intros H. unfold k_udp_send. destruct (lookup k fd) as [s|] eqn:L; [|exact H].
+  destruct (lookup_some_in _ _ _ L) as [_ Hfd].
+  destruct (s_peer s); [apply AccInv_udp_send_core; assumption|exact H].
+Qed.
+
+Lemma AccInv_k_udp_connect k acc fd peer : AccInv k acc -> AccInv (fst (k_udp_connect k fd peer)) acc.
+Proof.
+  intros H. unfold k_udp_connect. destruct (lookup k fd) as [s|] eqn:L; [|exact H].
+  destruct (lookup_some_in _ _ _ L) as [_ Hfd].
+  destruct (negb _); [exact H|].
+  assert (AccInv (fst (match s_bound s with Some b => (k, Ready b) | None => auto_bind k fd false (fst peer) end)) acc) as H1.
+  { destruct (s_bound s); [exact H|apply AccInv_auto_bind; assumption]. }
+  destruct (match s_bound s with Some b => _ | None => _ end) as [k1 r]; cbn [fst] in *.
+  destruct r as [|b|e]; try exact H1.
+  apply AccInv_upd_light; try (intros; reflexivity); [intros s0 Hs; exact Hs|exact H1].
 Qed.
 
 (* accept: the head of a ready queue moves into the accepted log *)
@@ -737,6 +761,8 @@ Proof.
     pose proof (AccInv_k_bind k acc a false H) as H1.
     destruct (k_bind k a false) as [k1 [|fd|er]]; cbn [fst okk acc_log] in *; exact H1.
   - destruct (_ && _); [|exact H]. apply AccInv_k_udp_send_to, H.
+  - destruct (_ && _); [|exact H]. apply AccInv_k_udp_connect, H.
+  - destruct (_ && _); [|exact H]. apply AccInv_k_udp_send, H.
   - apply AccInv_k_deliver, H.
   - apply AccInv_k_egress, H.
 Qed.
